@@ -1,4 +1,6 @@
 use std::{
+    ffi::{OsStr, OsString},
+    os::unix::ffi::OsStrExt,
     path::{Path, PathBuf},
     env::current_dir, sync::OnceLock, fs::ReadDir,
 };
@@ -7,7 +9,7 @@ use regex::Regex;
 
 use crate::{errors::{Result, XcpError}, config::{Config, Backup}};
 
-const BAK_PATTTERN: &str = r"^\~(\d+)\~$";
+const BAK_PATTTERN: &str = r"^\.\~(\d+)\~$";
 static BAK_REGEX: OnceLock<Regex> = OnceLock::new();
 
 fn get_regex() -> &'static Regex {
@@ -50,11 +52,10 @@ fn ls_file_dir(file: &Path) -> Result<ReadDir> {
     Ok(ls_dir)
 }
 
-fn filename(path: &Path) -> Result<String> {
+fn filename(path: &Path) -> Result<OsString> {
     let fname = path.file_name()
-        .ok_or(XcpError::InvalidArguments(format!("Invalid path found: {:?}", path)))?
-        .to_string_lossy();
-    Ok(fname.to_string())
+        .ok_or(XcpError::InvalidArguments(format!("Invalid path found: {:?}", path)))?;
+    Ok(fname.to_os_string())
 }
 
 fn has_backup(file: &Path) -> Result<bool> {
@@ -77,18 +78,16 @@ fn next_backup_num(file: &Path) -> Result<u64> {
     Ok(current + 1)
 }
 
-fn is_num_backup(base_file: &str, candidate: &Path) -> Option<u64> {
+// A backup of `base_file` is named exactly `<base_file>.~N~`; names are
+// compared as bytes so non-UTF-8 file names are handled too.
+fn is_num_backup<S: AsRef<OsStr>>(base_file: S, candidate: &Path) -> Option<u64> {
     let cname = candidate
         .file_name()?
-        .to_str()?;
-    if !cname.starts_with(base_file) {
-        return None
-    }
-    let ext = candidate
-        .extension()?
-        .to_string_lossy();
+        .as_bytes();
+    let ext = cname.strip_prefix(base_file.as_ref().as_bytes())?;
+    let ext = std::str::from_utf8(ext).ok()?;
     let num = get_regex()
-        .captures(&ext)?
+        .captures(ext)?
         .get(1)?
         .as_str()
         .parse::<u64>()
